@@ -537,7 +537,6 @@ func (vfs *MemFS) Open(name string) (avfs.File, error) {
 func (vfs *MemFS) OpenFile(name string, flag int, perm fs.FileMode) (avfs.File, error) {
 	const op = "open"
 
-	at := int64(0)
 	om := avfs.ToOpenMode(flag)
 
 	parent, child, pi, err := vfs.searchNode(name, slmEval)
@@ -566,7 +565,6 @@ func (vfs *MemFS) OpenFile(name string, flag int, perm fs.FileMode) (avfs.File, 
 				nd:       child,
 				vfs:      vfs,
 				name:     name,
-				at:       at,
 				openMode: om,
 			}
 
@@ -591,10 +589,6 @@ func (vfs *MemFS) OpenFile(name string, flag int, perm fs.FileMode) (avfs.File, 
 			c.truncate(0)
 		}
 
-		if om&avfs.OpenAppend != 0 {
-			at = c.size()
-		}
-
 	case *dirNode:
 		c.mu.Lock()
 		defer c.mu.Unlock()
@@ -612,7 +606,6 @@ func (vfs *MemFS) OpenFile(name string, flag int, perm fs.FileMode) (avfs.File, 
 		nd:       child,
 		vfs:      vfs,
 		name:     name,
-		at:       at,
 		openMode: om,
 	}
 
